@@ -258,7 +258,9 @@ func c30Exec(t *testing.T, sc *gen.Scenario, trace bool) *harness.Outcome {
 // ---------------------------------------------------------------- C32 AuthZEN
 
 func c32Gen(runSeed uint64, tier string) *gen.Scenario {
-	sc := genEngineScenario(runSeed, tier, 8)
+	// batch sizes on both sides of ten (correlation ids are decimal strings) and of the per-batch limit's half
+	nChecks := []int{8, 8, 13, 26}[gen.New(runSeed^0xc32c).Intn(4)]
+	sc := genEngineScenario(runSeed, tier, nChecks)
 	g := gen.New(runSeed ^ 0xc32)
 	var reqs []gen.Request
 	for _, r := range sc.Requests {
